@@ -1,6 +1,7 @@
 package exec
 
 import (
+	"fmt"
 	"math"
 	"strconv"
 
@@ -49,6 +50,10 @@ func execAdditiveExprSubtract(context *exprContext, expr *grammar.Grammar) error
 }
 
 func execMultiplicativeExprMultiply(context *exprContext, expr *grammar.Grammar) error {
+	if multiplyFollowsSlash(expr, expr.BSR) {
+		return fmt.Errorf("syntax error: '*' after '/' is a name test, not the multiplication operator")
+	}
+
 	left, right, err := leftRightIndependentNumber(context, expr)
 
 	if err != nil {
